@@ -1566,6 +1566,15 @@ func childMain(r *mon.Run, args []string) {
 	kind, cfg := args[0], args[1]
 	from, _ := strconv.Atoi(args[2])
 	to, _ := strconv.Atoi(args[3])
+	if kind == "entry" {
+		dir := bootCore(cfg)
+		var n int64
+		for idx := from; idx < to; idx++ {
+			n += entryGroup(r, cfg, idx)
+		}
+		cleanup(dir)
+		r.Finish(mon.Coverage{Evaluations: n})
+	}
 	dir := boot(cfg)
 	if kind == "conc" {
 		n := concPhase(r, cfg, from)
@@ -1598,6 +1607,7 @@ const rule = "bases: seeded key pairs (random, tiny, leading-zero, near-order sc
 	"one-field changes inside the signed payload, V relabelling (honest R,S and the twin under ~400 structured V values: other chain ids, near-miss rests of V-2c-8, 27/28, 0/1, huge; wrapper re-derived consistently), signature algebra (high-s twin, recid/v range, r=0, s=0, r>=n, s>=n), re-hashed and re-signed forgeries, foreign-chain / unprotected signatures, wrong height. " +
 	"Non-trivial = judged mutant (differs from its base in what VerifyTransaction can see; honest cases are the control); distinct = measured per base by content fingerprint, bases distinct by hash. " +
 	"Concurrent phase: 32 verifier goroutines on 16 Ps and a goroutine forcing garbage collections, each verifier with its own stream of honest transactions (up to 1 MiB Data / ExtraData) and interleaved mutants, fixed number of rounds; every verdict must equal the oracle and the sequential verdict of the same transaction. " +
+	"Entry-point phase (core booted, configurations A and B): a seeded sample of one mutant per class and the honest base are delivered through GameExecutor.runWrite (all 8 combinations of user id / request nonce / gate nonce x base type 0 / operator event / contract / ETH), the ClientTransactionWrite bus subscription and WorkerConn.handleMessage TransactionGotMsg batches (sizes 1-8 x all-honest / all-forged / forged-first / honest-first / interleaved / duplicates); a transaction must be pending in the pool or have an effect on the latest state iff VerifyTransaction accepts it alone. " +
 	"Unauthenticated fields, the recid 0/1 alias and multi-field boundary shifts are evaluated and counted (info_*) but not judged."
 
 func main() {
@@ -1631,6 +1641,14 @@ func main() {
 	for i := 0; i < r.Pick(2, 8); i++ {
 		cfg := allCfgs[i%len(allCfgs)]
 		specs = append(specs, mon.ChildSpec{Label: fmt.Sprintf("conc-%s-%d", cfg, i), Args: []string{"conc", cfg, strconv.Itoa(i), strconv.Itoa(i + 1)}, Timeout: timeout})
+	}
+	// entry-point phases (core booted): 96 groups per configuration cover every
+	// runWrite message combination x base type and every peer arrangement x size
+	entryGroups, entryBatch := r.Pick(96, 1920), r.Pick(32, 96)
+	for _, cfg := range []string{cfgA, cfgB} {
+		for from := 0; from < entryGroups; from += entryBatch {
+			specs = append(specs, mon.ChildSpec{Label: fmt.Sprintf("entry-%s-%d", cfg, from), Args: []string{"entry", cfg, strconv.Itoa(from), strconv.Itoa(from + entryBatch)}, Timeout: timeout})
+		}
 	}
 	nConc := len(specs)
 	add("eth", nEth) // the slower batches first
@@ -1670,7 +1688,18 @@ func main() {
 		MustObserve: []string{"honest_native_accepted", "honest_eth_accepted", "judged_native", "judged_eth", "eth_conversion_checked",
 			"rejected_native:ErrHash", "rejected_native:ErrSign", "rejected_native:ErrChainId", "rejected_eth:ErrIllegal",
 			"judged_native:mutant:sign-bitflip", "judged_eth:mutant:rlp-bitflip", "judged_eth:forgery:rlp-bitflip", "judged_eth:forgery:rlp-field=v-relabel",
-			"concurrent_overlapping_verifications", "concurrent_honest_accepted", "concurrent_mutants_rejected"},
+			"concurrent_overlapping_verifications", "concurrent_honest_accepted", "concurrent_mutants_rejected",
+			"entry_runWrite_honest_admitted", "entry_runWrite_forged_refused", "entry_bus_honest_admitted", "entry_bus_forged_refused",
+			"entry_peer_honest_admitted", "entry_peer_forged_refused", "entry_peer_mixed_batches", "entry_runWrite_repeats",
+			"entry_runWrite_combo:user=0,nonce=0,gateNonce=0", "entry_runWrite_combo:user=0,nonce=0,gateNonce=set",
+			"entry_runWrite_combo:user=0,nonce=set,gateNonce=0", "entry_runWrite_combo:user=0,nonce=set,gateNonce=set",
+			"entry_runWrite_combo:user=set,nonce=0,gateNonce=0", "entry_runWrite_combo:user=set,nonce=0,gateNonce=set",
+			"entry_runWrite_combo:user=set,nonce=set,gateNonce=0", "entry_runWrite_combo:user=set,nonce=set,gateNonce=set",
+			"entry_runWrite_basetype:0", "entry_runWrite_basetype:100", "entry_runWrite_basetype:200", "entry_runWrite_basetype:188",
+			"entry_bus_basetype:0", "entry_bus_basetype:100", "entry_bus_basetype:200", "entry_bus_basetype:188",
+			"entry_peer_arrangement:all-honest", "entry_peer_arrangement:all-forged", "entry_peer_arrangement:forged-first", "entry_peer_arrangement:honest-first",
+			"entry_peer_arrangement:interleaved-HF", "entry_peer_arrangement:interleaved-FH", "entry_peer_arrangement:duplicates",
+			"entry_peer_size:1", "entry_peer_size:2", "entry_peer_size:3", "entry_peer_size:4", "entry_peer_size:5", "entry_peer_size:6", "entry_peer_size:7", "entry_peer_size:8"},
 	})
 }
 
@@ -1700,6 +1729,13 @@ func replay(r *mon.Run, path string) {
 	if w.Kind == "" || w.Cfg == "" {
 		fmt.Println("MACHINERY: replay file has no usable case")
 		os.Exit(2)
+	}
+	if w.Kind == "entry" {
+		// an entry-point group is re-run as a whole
+		dir := bootCore(w.Cfg)
+		n := entryGroup(r, w.Cfg, w.Idx)
+		cleanup(dir)
+		r.Finish(mon.Coverage{Evaluations: n + 2, DistinctNontrivial: 2, Rule: "replay of one recorded entry-point group"})
 	}
 	dir := boot(w.Cfg)
 	x := &runner{r: r, pool: service.GetTransactionPool(), kind: w.Kind, cfg: w.Cfg, idx: w.Idx}
